@@ -603,22 +603,28 @@ func c12R2(c *Ctx, fns []*ssa.Function) {
 		c.Check(R2, en+"|extract-error-surfaces", xcall.Pos(), r.OK, ifelse(r.OK, r.How, r.Detail))
 		// nil return dominated by Verified() when a verifier exists
 		var verT, noVer []Edge
+		var verRecvs []ssa.Value
 		for _, i := range Ifs(E) {
 			cond, t, _ := ifEdges(i)
 			recv, _ := c12Invoke(cond, "Verified")
 			if recv == nil {
 				continue
 			}
-			okRecv := true
+			// the value consulted at the end is the very verifier the tee feeds
+			// (through the phi); a value that can only be nil is not a verifier
+			okRecv, hasVer := true, false
 			for _, rt := range Roots(recv) {
 				if k, isConst := rt.(*ssa.Const); isConst && k.Value == nil {
 					continue
 				}
 				if rt != ssa.Value(verifier) {
 					okRecv = false
+				} else {
+					hasVer = true
 				}
 			}
-			if okRecv {
+			if okRecv && hasVer {
+				verRecvs = append(verRecvs, recv)
 				verT = append(verT, t)
 				ne, _, _ := NilTests(E, map[ssa.Value]bool{recv: true})
 				noVer = append(noVer, ne...)
@@ -626,8 +632,27 @@ func c12R2(c *Ctx, fns []*ssa.Function) {
 		}
 		atoms := c11SuccessAtoms(E)
 		okVer := len(verT) > 0 && len(atoms) > 0 && c11AllAtomsPass(atoms, func() *cut { return newCut().Edges(verT...).Edges(noVer...) })
+		// the no-verifier edge is legitimate only when the checksum was absent or
+		// unparsable: behind the parse-success edge a nil return needs Verified()
+		if okVer {
+			for _, p := range parses {
+				e := ErrOf(p)
+				if e == nil {
+					okVer = false
+					continue
+				}
+				ne, _, _ := NilTests(E, Aliases(e))
+				for _, edge := range ne {
+					for _, rv := range verRecvs {
+						if !c12NonNilBehind(rv, edge, verifier, 0) {
+							okVer = false
+						}
+					}
+				}
+			}
+		}
 		c.Check(R2, en+"|success-dominated-by-verified", E.Pos(), okVer,
-			ifelse(okVer, "every nil return passes the Verified()==true edge or the no-verifier edge", "the extractor can return nil although the verifier exists and did not verify: a directory whose tar digest mismatches is accepted"))
+			ifelse(okVer, "every nil return passes the Verified()==true edge or the no-verifier edge", "the extractor can return nil on the checksum-parsed path without Verified()==true of the verifier that the TeeReader feeds (the value tested at the end is not that verifier, or the test is bypassed): a directory whose tar digest mismatches is accepted"))
 		// callers
 		chkIdx := c12ParamIndexReaching(E, "digest.Parse", 0)
 		gzIdx := c12ParamIndexReaching(E, "os.Open", 0)
@@ -683,6 +708,46 @@ func c12R2(c *Ctx, fns []*ssa.Function) {
 			c.LostAnchor(R2, "caller of the gzip extractor "+en)
 		}
 	}
+}
+
+// c12NonNilBehind: on every path that takes edge `from` (the checksum parsed),
+// the value v denotes `want` (never the nil alternative of a phi / the zero
+// value of a cell).
+func c12NonNilBehind(v ssa.Value, from Edge, want ssa.Value, depth int) bool {
+	if depth > 4 {
+		return false
+	}
+	v = strip(v)
+	if v == want {
+		return true
+	}
+	behind := func(b *ssa.BasicBlock) bool {
+		return b == from.To || reach(from.To, 0, b.Instrs[len(b.Instrs)-1], nil)
+	}
+	switch u := v.(type) {
+	case *ssa.Phi:
+		for i, e := range u.Edges {
+			pred := u.Block().Preds[i]
+			if !behind(pred) {
+				continue // this alternative is not selected on the parse-success path
+			}
+			if !c12NonNilBehind(e, from, want, depth+1) {
+				return false
+			}
+		}
+		return true
+	case *ssa.UnOp:
+		if a := cellOf(u); a != nil {
+			var sts []ssa.Instruction
+			for _, st := range storesTo(a) {
+				if strip(st.Val) == want {
+					sts = append(sts, st)
+				}
+			}
+			return len(sts) > 0 && !reach(from.To, 0, u, newCut().Instr(sts...))
+		}
+	}
+	return false
 }
 
 // ---------- R3 ----------
@@ -842,7 +907,7 @@ func c12R3(c *Ctx, fns []*ssa.Function) {
 
 func c12R4(c *Ctx, fns []*ssa.Function) {
 	const R4 = "C12.R4.duplicates-restored"
-	c.Expect(R4, 4)
+	c.Expect(R4, 5)
 	push := c.P.Fn(c11Pkg, "Store.Push")
 	if push == nil {
 		c.LostAnchor(R4, "(*~/content/file.Store).Push")
@@ -917,6 +982,123 @@ func c12R4(c *Ctx, fns []*ssa.Function) {
 	if n == 0 {
 		c.Undecided(R4, rn+"|tolerates-only-notfound-and-duplicate", RD.Pos(), "the per-successor restore step is not an immediately-invoked closure any more; shape not recognised")
 	}
+	c12R4EveryNamedSuccessor(c, R4, RD, rdCallees, pushCalls)
+}
+
+// c12R4EveryNamedSuccessor: in the restorer's loop over the successors, a
+// successor is skipped (next iteration reached without the restore step) only
+// on conditions that depend on nothing but its NAME (title annotation empty,
+// name already exists).  Same content under a different name must still be
+// materialised, so a skip depending on the digest, a counter, a set of already
+// restored contents … loses files.
+func c12R4EveryNamedSuccessor(c *Ctx, R4 string, RD *ssa.Function, rdCallees map[*ssa.Function]bool, pushCalls []ssa.CallInstruction) {
+	rn := FnName(RD)
+	key := rn + "|every-named-successor-restored"
+	var succ ssa.Value
+	for _, sc := range CallsTo(RD, "~/content.Successors") {
+		succ = ResultOf(sc, 0)
+	}
+	var loop *Loop
+	var body Edge
+	for _, l := range Loops(RD) {
+		if r, _, b, _, ok := l.RangeIndex(); ok && succ != nil && c11SameRoots(r, succ) {
+			loop, body = l, b
+		}
+	}
+	if loop == nil {
+		c.Undecided(R4, key, RD.Pos(), "no range loop over the result of content.Successors in the restorer; shape not recognised")
+		return
+	}
+	pushHelpers := map[*ssa.Function]bool{}
+	for _, p := range pushCalls {
+		pushHelpers[StaticCallee(p)] = true
+	}
+	var steps []ssa.Instruction
+	for _, call := range Calls(RD, func(string) bool { return true }) {
+		g := StaticCallee(call)
+		if g == nil || !loop.Contains(call.(ssa.Instruction)) {
+			continue
+		}
+		if _, isDefer := call.(*ssa.Defer); isDefer {
+			continue
+		}
+		direct := pushHelpers[g]
+		viaClosure := g.Parent() == RD && reachesCall(g, 1, func(_ string, cc ssa.CallInstruction) bool { return pushHelpers[StaticCallee(cc)] })
+		if direct || viaClosure {
+			steps = append(steps, call.(ssa.Instruction))
+		}
+	}
+	if len(steps) == 0 {
+		c.Violation(R4, key, blockPos(loop.Header), "the loop over the successors never reaches the push helper: no duplicate is restored")
+		return
+	}
+	header := loop.Header.Instrs[0]
+	cutS := newCut().Instr(steps...)
+	// blocks on a skip path: reachable from the body entry and reaching the next iteration, both without the restore step
+	title := ""
+	if k, ok := c.P.Obj("github.com/opencontainers/image-spec/specs-go/v1", "AnnotationTitle").(*types.Const); ok {
+		title = strings.Trim(k.Val().ExactString(), "\"")
+	}
+	nameOnly := func(cond ssa.Value) (bool, string, bool) {
+		switch strip(cond).(type) {
+		case *ssa.BinOp, *ssa.Call, *ssa.UnOp, *ssa.Lookup, *ssa.Extract, *ssa.Field:
+		default:
+			return false, describe(cond), false
+		}
+		var leaves []ssa.Value
+		c11Operands(cond, &leaves, map[ssa.Value]bool{}, 0)
+		for _, lf := range leaves {
+			switch u := lf.(type) {
+			case *ssa.Const:
+				continue
+			case *ssa.Parameter:
+				if len(RD.Params) > 0 && u == RD.Params[0] && RD.Signature.Recv() != nil {
+					continue // the store itself
+				}
+			case *ssa.Lookup:
+				if k, ok := constString(u.Index); ok && title != "" && k == title && strings.HasSuffix(fieldOfFuncValue(u.X), "Descriptor.Annotations") {
+					continue // the successor's title annotation
+				}
+			}
+			return false, describe(lf), true
+		}
+		return true, "", true
+	}
+	ok := true
+	for b := range loop.Blocks {
+		ifi, isIf := b.Instrs[len(b.Instrs)-1].(*ssa.If)
+		if !isIf || b == loop.Header {
+			continue
+		}
+		onSkipPath := (b == body.To || reach(body.To, 0, b.Instrs[0], cutS)) && reach(b, 0, header, cutS)
+		if !onSkipPath {
+			continue
+		}
+		// the If itself must be reachable in its block without the restore step
+		stepBefore := false
+		for _, in := range b.Instrs {
+			if cutS.instrs[in] {
+				stepBefore = true
+			}
+		}
+		if stepBefore {
+			continue
+		}
+		good, what, shape := nameOnly(ifi.Cond)
+		switch {
+		case good:
+		case !shape:
+			ok = false
+			c.Undecided(R4, key, ifi.Pos(), "a condition on a path that skips the restore step has an unrecognised shape: "+what)
+		default:
+			ok = false
+			c.Violation(R4, key, blockPos(b), "a successor with a name can be skipped (next iteration reached without the restore step) on a condition that depends on "+what+
+				", not only on its name: further files with the same content but other names are never materialised")
+		}
+	}
+	if ok {
+		c.OK(R4, key, blockPos(loop.Header), "every path through the loop body that skips the restore step is decided only by the successor's title (empty / already exists)")
+	}
 }
 
 var c12Mutants = []Mutant{
@@ -966,6 +1148,12 @@ var c12Mutants = []Mutant{
 		Old:    "\tif err := s.saveFile(gz, expected, content); err != nil {",
 		New:    "\tif _, err := io.Copy(gz, content); err != nil {",
 		Expect: "C12.R2.unpack-verifies|(*~/content/file.Store).pushDir|gzip-saved-through-verifying-copy"},
+	{Name: "outer-verifier-shadowed", File: "content/file/utils.go",
+		Old: "\t\t\tverifier = digest.Verifier()", New: "\t\t\tverifier := digest.Verifier()",
+		Expect: "C12.R2.unpack-verifies|~/content/file.extractTarGzip|success-dominated-by-verified"},
+	{Name: "verified-skipped-for-parsed-checksum", File: "content/file/utils.go",
+		Old: "\tif verifier != nil && !verifier.Verified() {", New: "\tif verifier != nil && len(checksum) < 10 && !verifier.Verified() {",
+		Expect: "C12.R2.unpack-verifies|~/content/file.extractTarGzip|success-dominated-by-verified"},
 	// R3
 	{Name: "uid-not-zeroed", File: "content/file/utils.go",
 		Old: "\t\theader.Uid = 0\n", New: "",
@@ -987,6 +1175,10 @@ var c12Mutants = []Mutant{
 	{Name: "restore-on-forcecas-only", File: "content/file/file.go",
 		Old: "\tif !s.ForceCAS {", New: "\tif s.ForceCAS {",
 		Expect: "C12.R4.duplicates-restored|(*~/content/file.Store).Push|restores-duplicates"},
+	{Name: "restorer-skips-by-content", File: "content/file/file.go",
+		Old:    "\t\tif name == \"\" || s.nameExists(name) {\n\t\t\tcontinue\n\t\t}\n\t\tif err := func() error {",
+		New:    "\t\tif name == \"\" || s.nameExists(name) || successor.Size == 0 {\n\t\t\tcontinue\n\t\t}\n\t\tif err := func() error {",
+		Expect: "C12.R4.duplicates-restored|(*~/content/file.Store).restoreDuplicates|every-named-successor-restored"},
 	{Name: "restorer-tolerates-everything", File: "content/file/file.go",
 		Old: "\t\t\tdefault:\n\t\t\t\treturn err\n", New: "\t\t\tdefault:\n\t\t\t\tcontinue\n",
 		Expect: "C12.R4.duplicates-restored|(*~/content/file.Store).restoreDuplicates|tolerates-only-notfound-and-duplicate"},
